@@ -200,4 +200,20 @@ CHECKS = {
         "note": COMMON_NOTE + "numpy.linalg.lstsq's numerical rank threshold is replaced by exact rank (inputs keep singular values well separated); the model's own solver result is checked, its completeness is observed not proved.",
         "technique": "Lean 4 proofs with a verified kernel-vector decision and checked least-squares certificates + exact-rational correspondence + sympy/Fraction oracle",
     },
+    "C13": {
+        "text": "Proved on the models the C01/C02/C05/C11/C17 correspondence runs execute: the weighted mode average (and the five per-(T,V) "
+                "quantities and value_isothermal/value_adiabatic of both non-shear classes) is invariant under List.Perm of the q-points after Gamma "
+                "together with their weights, under permutations of the modes inside a q-point (Gamma: of its non-acoustic modes) and under a common "
+                "factor c != 0 on the weights; interpolate_modes is equivariant under any re-indexing of (q,m) that respects the Gamma-acoustic slots; "
+                "normal matrix, right-hand side, certificate and hence both least-squares solvers do not see the row order; the least-squares "
+                "polynomial is unique and invariant under an affine change of abscissa (what another reference volume does to the Eulerian strain, "
+                "proved over R), so fitted static values at corresponding points are unchanged; static column prefix/case/transposed digits give the "
+                "same canonical key and a column permutation gives the same parsed map (or both reads fail). PARTIAL: the fit_modulus corollaries of "
+                "the affine/row-order clause hold whenever both fits answer (solver totality unproved); the equivariance theorem assumes both runs "
+                "return; volume-block order goes through qha/scipy and is metamorphic-only. Metamorphic end-to-end runs of the real Calculator on 12 "
+                "re-presentations per data set (incl. combined column shuffle+respelling, normalised weights, extreme weight factors, composed phonon "
+                "re-presentation) with 'identical to 1e-8 of scale' (volume order: identical or rejected) as oracle.",
+        "note": COMMON_NOTE + "Theorems are over R / ordered fields; 'unchanged to rounding' is measured, not proved. qha and scipy are external.",
+        "technique": "Lean 4 theorems (List.Perm induction, Mathlib Polynomial uniqueness, decide +kernel instances) + metamorphic end-to-end oracle on the real Calculator",
+    },
 }
